@@ -12,6 +12,7 @@ import (
 
 func init() {
 	vHarnesses["H_C05_text"] = H_C05_text
+	vHarnesses["H_C05_literals"] = H_C05_literals
 	vHarnesses["H_C05_builtins"] = H_C05_builtins
 	vHarnesses["H_C05_builtinsQ"] = H_C05_builtinsQ
 }
@@ -75,6 +76,63 @@ func H_C05_text(inst int) {
 	verify(!panicked, "a Go panic escaped Exec")
 	verify(!isPanicResidue(eerr), "Exec returned the residue of a recovered Go panic")
 	reach("c05/text", true)
+}
+
+// c05Literals: number, atom and string literals at the limits of their notations. The digits are concrete (number
+// text runs natively, DESIGN 2.2); the family widens what the symbolic-byte templates cannot reach in 2..3 bytes:
+// exponents and digit strings beyond every machine range, escapes with huge code points, long tokens.
+var c05Literals = []string{
+	`X = 1.0e2147483647.`, `X = 1.0e2147483648.`, `X = 1.0e99999999999999999999.`, `X = 1.0e-2147483648.`, `X = 1.0e-2147483649.`,
+	`X = 1.0e400.`, `X = 1.0e-400.`, `X = 1.0e+309.`, `X = 1.7976931348623157e308.`, `X = 1.7976931348623159e308.`, `X = 4.9e-324.`, `X = 2.0e-324.`,
+	`X = 0.0e2147483648.`, `X = -1.0e2147483648.`, `X = - 1.0e2147483648.`, `X is 1.0e2147483648 + 1.`, `X = f(1.0e2147483648).`, `X = [1.0e2147483648].`,
+	`X = 99999999999999999999999999999.`, `X = -99999999999999999999999999999.`, `X = 9223372036854775808.`, `X = -9223372036854775808.`, `X = -9223372036854775809.`,
+	`X = 0x7fffffffffffffff.`, `X = 0x8000000000000000.`, `X = 0x99999999999999999999.`, `X = 0b1111111111111111111111111111111111111111111111111111111111111111.`,
+	`X = 0o7777777777777777777777.`, `X = 0'\x99999999999999999999\.`, `X = 0'\x110000\.`, `X = 0'\xD800\.`, `X = 0'\777777777777\.`,
+	`X = "\x99999999999999999999\".`, `X = '\x99999999999999999999\'.`, `X = '\x110000\'.`, `X = "\777777777777\".`, `X = 'a\x0\b'.`,
+	`X = 1.e5.`, `X = 1.0e.`, `X = 1.0e+.`, `X = 1e5.`, `X = 1.0E5.`, `X = 0.1e-.`, `X = 1 .0.`, `X = 0'.`, `X = 0''.`, `X = 0'''.`, `X = 0x.`, `X = 0b2.`, `X = 0o8.`,
+	`number_codes(X, "1.0e2147483648").`, `number_chars(X, ['1', '.', '0', e, '2', '1', '4', '7', '4', '8', '3', '6', '4', '8']).`, `atom_length(A, 1.0e2147483648).`,
+	`X = 000000000000000000000000000000000000000000000000000000000000000000000000000000000000000000000000000000000000000000000000000000000000000000000001.`,
+	`X = 0.000000000000000000000000000000000000000000000000000000000000000000000000000000000000000000000000000000000000000000000000000000000000000000000001.`,
+	`X = 1000000000000000000000000000000000000000000000000000000000000000000000000000000000000000000000000000000000000000000000000000000000000000000000.0.`,
+}
+
+// H_C05_literals: literal number inst through the reader, Exec and Query (answers consumed).
+func H_C05_literals(inst int) {
+	text := c05Literals[inst]
+	note("text", text)
+	i := newFull()
+	run := func(what string, f func() error) {
+		panicked := false
+		var err error
+		func() {
+			defer func() {
+				if r := recover(); r != nil {
+					panicked = true
+				}
+			}()
+			err = f()
+		}()
+		verify(!panicked, "a Go panic escaped "+what)
+		verify(!isPanicResidue(err), what+" returned the residue of a recovered Go panic")
+	}
+	run("the reader", func() error {
+		p := engine.NewParser(&i.VM, strings.NewReader(text))
+		_, err := p.Term()
+		return err
+	})
+	run("Exec", func() error { return i.Exec(":- " + text) })
+	run("Query", func() error {
+		sols, err := i.Query(text)
+		if err != nil {
+			return err
+		}
+		for k := 0; k < 3 && sols.Next(); k++ {
+		}
+		err = sols.Err()
+		sols.Close()
+		return err
+	})
+	reach("c05/literal", true)
 }
 
 // H_C05_builtins: predicate number inst of the table registered by New() (bootstrap included) x argument shapes.
